@@ -5,6 +5,8 @@ import (
 	"go/types"
 	"reflect"
 	"strings"
+
+	"verif/engine/smt"
 )
 
 func rtypeOf(v Value) RType {
@@ -377,7 +379,31 @@ func registerReflectSet(p *Program) {
 			rpanic("SetMapIndex", "zero Value")
 		}
 		if mv.N != nil {
-			unsupported("SetMapIndex on symbolic node")
+			if mv.Wrapped || mv.Ptr > 0 {
+				rpanic("SetMapIndex", "interface Value")
+			}
+			n := mv.N
+			m.require(m.nodeTagIn(n, TagObject), "SetMapIndex", "non-map Value")
+			if key == nil || key.N != nil {
+				unsupported("SetMapIndex with symbolic key")
+			}
+			m.checkMapKeyAssignable(n, key.T)
+			ks, ok := key.val().(string)
+			if !ok {
+				unsupported("SetMapIndex with non-concrete key")
+			}
+			if elem == nil {
+				unsupported("delete from symbolic object")
+			}
+			if n.CRep.Op != smt.OpConst && m.Branch(m.simp(n.TypedContainer()), "SetMapIndex.typed") {
+				unsupported("SetMapIndex on typed symbolic map")
+			}
+			ov := m.overlayFor(n)
+			if _, ok := ov.Vals[ks]; !ok {
+				ov.Keys = append(ov.Keys, ks)
+			}
+			ov.Vals[ks] = m.assignTo(elem, m.P.AnyT(), "SetMapIndex")
+			return nil
 		}
 		mt, ok := mv.T.Underlying().(*types.Map)
 		if !ok {
@@ -448,9 +474,7 @@ func (m *Machine) assignTo(src *RV, dst types.Type, method string) Value {
 		if _, ok := dst.Underlying().(*types.Interface); ok {
 			w := m.nodeWrap(src.N)
 			if src.Wrapped {
-				if w == 0 && m.Branch(m.nodeTagIn(src.N, TagNull), "assign-nil") {
-					return Iface{}
-				}
+				// (a null node stays node-backed: reflect.ValueOf of it is the invalid Value, like a nil interface)
 				return Iface{T: m.P.NodeT, V: src.N}
 			}
 			if src.Ptr == w {
